@@ -369,7 +369,7 @@ def main():
                     bounded_runs[-1] += ' -- INCOMPLETE: stopped at a failure attributed to %s' % ', '.join(nr['attributed'])
                     print('note: bounded stand-in %s failed on an oracle of %s (not of %s): reported by the checks of those properties' % (nr['id'], ', '.join(nr['attributed']), pid))
                 elif not nr['passed']:
-                    violations.append(dict(engine='native-bounded', test=nr['id'], functions=nr['functions'], cmd=nr['cmd'], verifier_output=nr['output_tail'],
+                    violations.append(dict(engine='native-bounded', test=nr['id'], functions=nr['functions'], cmd=nr['cmd'], failing_inputs=[l for l in nr.get('fail_lines', []) if not nr.get('attributed') or any(t in l.split(':')[0] for t in [pid])] or nr.get('fail_lines', []), verifier_output=nr['output_tail'],
                                            playback=dict(reproduced=True, native_cmd=nr['cmd'])))
         except native_run.NativeUndecided as e:
             undecided.append(str(e))
